@@ -304,6 +304,7 @@ type BatchOutcome struct {
 	Victim      *diskVictim // line whose result streams met injected write errors (excluded from summary and solo oracles)
 	Excused     map[int]string // position in the batch -> why the line is exempt from the summary and solo oracles (judged by the fault's own oracle)
 	AtDecision  func(n int)    // fault hook: called by the scheduler before decision n is taken
+	RealDisk    bool           // outcome of the shipped binary on the real disk (not of the bubble)
 	Released    []releasedAt   // per serial decision: which run was released from which yield point
 	StartDec    map[string]int // run id -> decision at which the run left its first yield point (run.start), i.e. began to execute
 }
